@@ -144,3 +144,9 @@ package channelmonitor
 //@   acquires {C20} channelmonitor.monitoredChannel.shutdownLk, graphsync.Transport.dtChannelsLk, graphsync.dtChannel.lk, tracing.SpansIndex.spansLk
 //@   requires *mc != nil && *timer != nil
 //@   ensures [closes-only-on-timer] calls(monitoredChannel.closeChannelAndShutdown) <= 1
+
+//@ func channelmonitor.NewMonitor {C14,C20}
+//@   constructor
+//@   requires mgr != nil
+//@   requires [valid-config] cfg == nil || ((*cfg).AcceptTimeout >= 0 && (*cfg).MaxConsecutiveRestarts != 0 && (*cfg).CompleteTimeout >= 0)
+//@       -- an invalid configuration is refused by a deliberate panic at construction (checkConfig)
